@@ -27,7 +27,11 @@ RULE = (
     "case variant, a list element and a non-matching string.  Part 1d: typed matchers (== in >= > <= on Type.string / "
     "wstring / varint / float / net.ipaddress / uri[.attr] / datetime.year, forward and reverse membership) on records "
     "with 3-4 levels of record / record[] nesting where every depth carries its own values and the expression is built "
-    "from the values of one depth.  A case is non-trivial when the reference evaluator defines it (every "
+    "from the values of one depth.  Part 1e: typed matchers and helpers over Type.<t> built from the values of one "
+    "grouped record, evaluated on sequences of grouped records of different shapes (members, field names, a name typed "
+    "differently) by one long-lived selector object per engine and by fresh ones, in both orders.  The text values and "
+    "literals include characters with special case mappings (sharp s, final sigma, micro sign, long s, ligature, dotted "
+    "and dotless i, titlecase digraph).  A case is non-trivial when the reference evaluator defines it (every "
     "sub-expression evaluated eagerly without error) and it reads at least one field; distinct = distinct (expression, "
     "pool seed, record index).  Oracle: an independent AST walker giving every node its Python meaning "
     "(verif/refselector.py), itself cross-checked against builtin eval on every defined case without a typed matcher. "
@@ -277,12 +281,15 @@ def teardown(ctx):
     ctx.state["reach"].stop()
 
 
+C07_INFO = dict(selgen.SHAPE_INFO, texts=selgen.SPECIAL_INFO_TEXTS)   # literals include the special-case-mapping texts of the pool
+
+
 def pool_for(ctx, seed):
     pools = ctx.state.setdefault("pools", {})
     if seed not in pools:
         if len(pools) > 64:
             pools.clear()
-        pools[seed] = selgen.record_pool(random.Random(seed), grouped=True)
+        pools[seed] = selgen.record_pool(random.Random(seed), grouped=True, special=True)
     return pools[seed]
 
 
@@ -304,7 +311,7 @@ def generate(ctx):
         for j in range(reps):
             expr = None
             for _ in range(400):
-                e, tags = selgen.gen_expr(rng, rng.choice([0, 1, 1, 2]), support="must", avoid=(), with_tags=True)
+                e, tags = selgen.gen_expr(rng, rng.choice([0, 1, 1, 2]), C07_INFO, support="must", avoid=(), with_tags=True)
                 if kind in node_kinds(ast.parse(e, mode="eval")):
                     expr = e
                     break
@@ -321,7 +328,7 @@ def generate(ctx):
         for j in range(reps):
             expr = None
             for _ in range(600):
-                e, tags = selgen.gen_expr(rng, rng.choice([0, 1, 1, 2]), support="any", avoid=(), with_tags=True)
+                e, tags = selgen.gen_expr(rng, rng.choice([0, 1, 1, 2]), C07_INFO, support="any", avoid=(), with_tags=True)
                 if "may-reject" in tags and reason in classify_support(e)[1]:
                     expr = e
                     break
@@ -348,15 +355,61 @@ def generate(ctx):
                     if ctx.mine(idx):
                         yield {"k": "deep", "kind": "depth%d" % k, "expr": expr, "tags": [], "pool": ps, "rec": ri}
                     idx += 1
+    # part 1e: typed matchers on grouped records of different shapes, one after the other in this process
+    for ps in pool_seeds[:ctx.scale(2, 4)]:
+        groups = grouped_for(ctx, ps)
+        for gi, g in enumerate(groups):
+            others = [(gi + 1) % len(groups), (gi + 3) % len(groups), (gi + 7) % len(groups)]
+            for expr in grouped_exprs(g):
+                for oi in others[:ctx.scale(2, 3)]:
+                    for recs in ([gi, oi, gi], [oi, gi]):
+                        if ctx.mine(idx):
+                            yield {"k": "grouped-seq", "kind": "grouped", "expr": expr, "tags": [], "pool": ps, "recs": recs}
+                        idx += 1
     # part 2: random expressions, deeper
     n = ctx.scale(450, 14000)
     depths = [0, 1, 2, 2, 3, 3] if ctx.quick else [1, 2, 3, 3, 4, 4, 5, 6]
     rng = random.Random(subseed("c07", ctx.seed, ctx.shard, "random"))
     for i in range(n):
         support = "any" if i % 2 else "must"
-        e, tags = selgen.gen_expr(rng, rng.choice(depths), support=support, avoid=(), with_tags=True)
+        e, tags = selgen.gen_expr(rng, rng.choice(depths), C07_INFO, support=support, avoid=(), with_tags=True)
         for ri in pick_records(rng):
             yield {"k": "random", "expr": e, "tags": tags, "pool": pool_seeds[i % npools], "rec": ri}
+
+
+def grouped_for(ctx, seed):
+    cache = ctx.state.setdefault("grouped", {})
+    if seed not in cache:
+        cache[seed] = selgen.grouped_pool(random.Random(seed ^ 0x6709))
+    return cache[seed]
+
+
+def grouped_exprs(g):
+    """Typed-matcher expressions built from the values of one grouped record (evaluated on it and on groups of other shapes)."""
+    import re
+
+    by_type = {}
+    for t, f in g._desc.get_field_tuples():
+        by_type.setdefault(t, []).append(getattr(g, f))
+    out = []
+    for t in ("string", "wstring"):
+        for v in by_type.get(t, [])[:2]:
+            out += ["Type.%s == %r" % (t, v), "%r in Type.%s" % (v[:3], t), "Type.%s in [%r, 'zz']" % (t, v), "Type.%s >= %r" % (t, v),
+                    "field_equals(r, Type.%s, [%r])" % (t, v.upper()), "field_contains(r, Type.%s, [%r])" % (t, v[1:4]),
+                    "field_regex(r, Type.%s, %r)" % (t, re.escape(v[:4])), "field_equals(r, Type.%s, [%r], nocase=False)" % (t, v)]
+    for v in by_type.get("varint", [])[:2]:
+        out += ["Type.varint == %d" % v, "Type.varint in [%d, 5]" % v, "Type.varint >= %d" % v, "Type.varint < %d" % v,
+                "any(Type.varint == x for x in [%d])" % v]
+    for v in by_type.get("net.ipaddress", [])[:1]:
+        out += ["Type.net.ipaddress == %r" % str(v), "Type.net.ipaddress != %r" % str(v)]
+    for v in by_type.get("uri", [])[:1]:
+        out += ["Type.uri.filename == %r" % v.filename, "%r in Type.uri" % v.hostname]
+    for v in by_type.get("float", [])[:1]:
+        out += ["Type.float == %r" % float(v), "Type.float > %r" % (float(v) - 1)]
+    for v in by_type.get("string[]", [])[:1]:
+        out += ["%r in r.l" % v[0]]
+    out += ["Type.string == 'nowhere'", "Type.varint == -7"]
+    return out
 
 
 def deep_for(ctx, seed):
@@ -397,7 +450,8 @@ def helper_type_exprs(rec, ftype, fname):
     if isinstance(v, (list, tuple)):
         cands += [str(x) for x in v[:1] if isinstance(x, (str, int))] + [str(v)]
     elif v is not None:
-        cands += [str(v), str(v).upper()]
+        # case variants: Python's str.lower() / str.upper() is the documented meaning of nocase, not casefold()
+        cands += [str(v), str(v).upper(), str(v).lower(), str(v).casefold(), str(v).swapcase()]
     if ftype == "command":
         cands += selgen.CMDS[:2]
     if ftype in ("path", "path[]"):
@@ -406,7 +460,12 @@ def helper_type_exprs(rec, ftype, fname):
         cands += ["10.0.0.1", "10.0.0.0/8"]
     cands = [c for c in dict.fromkeys(cands) if len(c) < 80] or ["x"]
     first, rest = cands[0], cands[1:]
-    out = [
+    out = ["field_equals(r, [%r], [%r])" % (fname, c) for c in rest[:4]] + ["field_contains(r, [%r], [%r])" % (fname, c) for c in rest[:4]]
+    if isinstance(v, str):
+        out += ["lower(r.%s) == %r" % (fname, v.lower()), "lower(r.%s) == %r" % (fname, v.casefold()), "upper(r.%s) == %r" % (fname, v.upper()),
+                "upper(r.%s) == %r" % (fname, v.casefold().upper()), "'ς' in lower(r.%s)" % fname, "'ss' in lower(r.%s)" % fname,
+                "'SS' in upper(r.%s)" % fname, "lower(r.%s) == lower(%r)" % (fname, v.swapcase()), "'i' in lower(r.%s)" % fname]
+    out += [
         "field_equals(r, [%r], [%r])" % (fname, first),
         "field_equals(r, [%r], [%r], nocase=False)" % (fname, first),
         "field_equals(r, ['zz', %r, 's'], %r)" % (fname, ["zz"] + rest[:2] + [first]),
@@ -430,10 +489,23 @@ def execute(ctx, case):
     from flow.record.selector import CompiledSelector, Selector
 
     expr = case["expr"]
+    if case["k"] == "grouped-seq":
+        # one long-lived selector object per engine sees the groups one after the other, next to fresh objects
+        groups = grouped_for(ctx, case["pool"])
+        long_lived = {"interpreted": Selector(expr), "compiled": CompiledSelector(expr)}
+        for gi in case["recs"]:
+            check_pair(ctx, case, expr, groups[gi], long_lived)
+        return
     if case["k"] == "deep":
         rec = deep_for(ctx, case["pool"])[case["rec"]][0]
     else:
         rec = pool_for(ctx, case["pool"])[case["rec"]]
+    check_pair(ctx, case, expr, rec, None)
+
+
+def check_pair(ctx, case, expr, rec, long_lived):
+    from flow.record.selector import CompiledSelector, Selector
+
     shape = selgen.shape_of(rec)
     ctx.ev()
     tree = ast.parse(expr, mode="eval")
@@ -483,9 +555,14 @@ def execute(ctx, case):
         for r in reasons:
             ctx.cell("may-reject", r)
     if reads_a_field(tree):
-        ctx.nontrivial(expr, case["pool"], case["rec"])
+        ctx.nontrivial(expr, case["pool"], case.get("rec", shape + repr(rec._desc.get_field_tuples())))
 
-    for engine, cls in (("interpreted", Selector), ("compiled", CompiledSelector)):
+    runs = [("interpreted", Selector), ("compiled", CompiledSelector)]
+    if long_lived:
+        runs += [(engine, (lambda _e, sel=sel: sel)) for engine, sel in long_lived.items()]
+        ctx.cell("grouped-sequence", "%d fields" % len(rec._desc.fields), ref)
+        ctx.event("defined:grouped-sequence")
+    for engine, cls in runs:
         got, exc = run_engine(cls, expr, rec)
         if got == ("V", ref):
             ctx.event("%s:%s:agree" % (engine, support))
@@ -516,6 +593,7 @@ def finish(ctx):
         ctx.require(have >= need, "must-support kind %s has only %d defined cases in shard %d (need %d)" % (k, have, ctx.shard, need))
     ctx.require(ctx.events.get("oracle_selfcheck_agree", 0) > 0, "the oracle self-check against builtin eval never ran")
     ctx.require(ctx.events.get("defined:may-reject", 0) > 0, "no defined may-reject case")
+    ctx.require(ctx.events.get("defined:grouped-sequence", 0) > 0, "no defined typed-matcher case on a sequence of grouped records")
     for k in range(4):
         ctx.require(ctx.cells.get("typed-matcher-depth/depth%d/True" % k, 0) > 0,
                     "no defined typed-matcher case decided by a value at nesting depth %d in shard %d" % (k, ctx.shard))
